@@ -79,6 +79,12 @@ def triples_for(rng, kind, row, n_random):
     out.append(deg[rng.randrange(len(deg))])
     if n_random > 2:
         out.extend(deg)
+    # the controller re-reports the SAME value with other bounds (narrower, then wider): "the maximum the
+    # controller last reported" must be the one in force
+    v, lo, hi = out[0]
+    if hi - lo >= 4:
+        out.insert(1, (v, max(lo, v - 1), min(hi, v + 1)))
+        out.insert(2, (v, lo, hi))
     return [t for t in out if not all(b == 255 for x in t for b in x.to_bytes(row["size"], "little"))]
 
 
@@ -171,7 +177,8 @@ async def run_async(ctx, res, only=None):
                         r, frames = await pd.run_set(w, lambda: p.set(v, retries=1, timeout=0.01))
                     after = dev.data[row["name"]].values.value
                     obs, raised, tx = observe(kind, row, r, frames, held, after)
-                    cases.append(dict(table=tname, row=row["name"], kind=kind, conv=cw, triple=list(held), value=v,
+                    # judged against what the controller last REPORTED (for the control switch the triple is derived from the state)
+                    cases.append(dict(table=tname, row=row["name"], kind=kind, conv=cw, triple=list(held if (kind == "control" or only) else triple), value=v,
                                       via="Device.set" if via_device else "parameter.set", obs=obs, raised=raised, tx=tx,
                                       after=after, result=list(r)))
         await w.shutdown()
